@@ -33,6 +33,8 @@ type QueryLog struct {
 	Name      string `json:"name"` // as received
 	Qtype     uint16 `json:"qtype"`
 	Qclass    uint16 `json:"qclass"`
+	RD        bool   `json:"rd"`
+	NQ        int    `json:"nq"`
 	Serial    uint32 `json:"serial"` // serial of the reply (0 = no keyed reply)
 	Kind      string `json:"kind"`
 	Rcode     int    `json:"rcode"`
@@ -127,6 +129,7 @@ func (s *Server) decide(transport string, conn int64, raw []byte) *action {
 	}
 	qq := q.Question[0]
 	ql.WireID, ql.Name, ql.Qtype, ql.Qclass = q.Id, qq.Name, qq.Qtype, qq.Qclass
+	ql.RD, ql.NQ = q.RecursionDesired, len(q.Question)
 	first := ""
 	if l := dns.SplitDomainName(qq.Name); len(l) > 0 {
 		first = l[0]
